@@ -104,6 +104,16 @@ func (w *world) withinCap(ts []int, n int) bool {
 	return true
 }
 
+// fitsPool mirrors FitsPool of MemAlloc.tla: Allocate on a unified device may take each page from any member.
+func (w *world) fitsPool(ts []int, n int) bool {
+	live, capacity := 0, uint64(0)
+	for _, t := range ts {
+		live += w.liveOn(t)
+		capacity += w.devs[t].N
+	}
+	return uint64(live+n) <= capacity
+}
+
 func (w *world) emit(e string, f ab.Rec) {
 	w.stats["events"]++
 	w.stats["ev_"+e]++
@@ -151,7 +161,7 @@ func (w *world) alloc(ctx, dev, n, rem int, unified bool) bool {
 	if unified {
 		dev = 1
 	}
-	legit := !w.withinCap(w.targets(dev), n)
+	legit := !w.fitsPool(w.targets(dev), n)
 	var ptr uint64
 	ok := w.call(proc, ab.Rec{"op": "Alloc", "pid": proc, "dev": dev, "bytes": bytes}, legit, func() {
 		if unified {
@@ -165,8 +175,24 @@ func (w *world) alloc(ctx, dev, n, rem int, unified bool) bool {
 		return false
 	}
 	w.bufs = append(w.bufs, buf{ctx: ctx, ptr: ptr, pages: n, live: true, bytes: bytes})
+	pt := w.dump()
 	w.emit("Alloc", ab.Rec{"pid": proc, "ctx": ctx, "dev": dev, "bytes": bytes, "uni": b2i(unified),
-		"v": ptr / w.psz, "voff": ptr % w.psz, "pt": w.dump()})
+		"v": ptr / w.psz, "voff": ptr % w.psz, "pt": pt})
+	// an allocation beyond capacity that succeeds, or one that returns a page another mapping or a pending
+	// migration already uses, ends the history: the specification decides whether that is explicable
+	seen := map[interface{}]bool{}
+	for _, h := range w.held {
+		seen[h] = true
+	}
+	for _, p := range pt {
+		if seen[p["ppn"]] {
+			w.dead = true
+		}
+		seen[p["ppn"]] = true
+	}
+	if legit {
+		w.dead = true
+	}
 	return true
 }
 
@@ -314,6 +340,100 @@ func (w *world) migrate(b, off, gpu int) bool {
 	return ok
 }
 
+// pump ticks the driver and plays the command processors for memory copies, flushes and kernel launches
+// until the queue is empty.
+func (w *world) pump(q *driver.CommandQueue) {
+	for i := 0; i < 2000; i++ {
+		if q.NumCommand() == 0 && w.gpuPort.PeekOutgoing() == nil && w.gpuPort.PeekIncoming() == nil {
+			return
+		}
+		w.d.Tick()
+		for {
+			m := w.gpuPort.RetrieveOutgoing()
+			if m == nil {
+				break
+			}
+			var cp sim.Port
+			for _, p := range w.cps {
+				if p.AsRemote() == m.Meta().Dst {
+					cp = p
+				}
+			}
+			if cp == nil {
+				panic(hErr("message to an unknown command processor"))
+			}
+			var rsp sim.Msg
+			switch req := m.(type) {
+			case *protocol.MemCopyH2DReq, *protocol.MemCopyD2HReq, *protocol.FlushReq:
+				rsp = sim.GeneralRspBuilder{}.WithSrc(cp.AsRemote()).WithDst(w.gpuPort.AsRemote()).WithOriginalReq(m).Build()
+			case *protocol.LaunchKernelReq:
+				rsp = protocol.NewLaunchKernelRsp(cp.AsRemote(), w.gpuPort.AsRemote(), req.ID)
+			default:
+				panic(hErr(fmt.Sprintf("unexpected message %T from the driver", m)))
+			}
+			if err := w.gpuPort.Deliver(rsp); err != nil {
+				panic(hErr("driver port full"))
+			}
+		}
+	}
+	panic(hErr("command queue did not drain"))
+}
+
+// launch enqueues the driver's own device-to-device copy kernel (the only kernel reachable without a code
+// object) and runs the queue: the driver allocates the code object, kernel arguments and dispatch packet on
+// the context's GPU, copies them and launches; afterwards every buffer of the context is L2-dirty.
+func (w *world) launch(ctx, gpu int) bool {
+	proc := w.sc.Ctxs[ctx]
+	var ptr uint64
+	for _, b := range w.bufs {
+		if b.live && w.sc.Ctxs[b.ctx] == proc {
+			ptr = b.ptr
+		}
+	}
+	w.written = nil
+	var q *driver.CommandQueue
+	ok := w.call(proc, ab.Rec{"op": "Launch", "pid": proc, "dev": gpu, "bytes": 4 * w.psz}, false, func() {
+		w.d.SelectGPU(w.ctxs[ctx], gpu)
+		q = w.d.CreateCommandQueue(w.ctxs[ctx])
+		w.d.EnqueueMemCopyD2D(q, driver.Ptr(ptr), driver.Ptr(ptr), 4)
+	})
+	if !ok {
+		return false
+	}
+	// the internal allocations are ordinary buffers of the context: log them as one allocation
+	if len(w.written) > 0 {
+		first := w.written[0].vaddr
+		n := len(w.written)
+		w.bufs = append(w.bufs, buf{ctx: ctx, ptr: first, pages: n, live: true, bytes: uint64(n) * w.psz, internal: true})
+		w.emit("Alloc", ab.Rec{"pid": proc, "ctx": ctx, "dev": gpu, "bytes": uint64(n) * w.psz, "uni": 0,
+			"v": first / w.psz, "voff": first % w.psz, "pt": w.dump(), "internal": 1})
+	}
+	ok = w.call(proc, ab.Rec{"op": "LaunchRun", "pid": proc, "ctx": ctx}, false, func() { w.pump(q) })
+	if !ok {
+		return false
+	}
+	w.emit("Launch", ab.Rec{"pid": proc, "ctx": ctx, "pt": w.dump()})
+	return true
+}
+
+// copyOut copies 4 bytes of buffer b to the host through the command queue (flushes when the buffer is dirty,
+// which is when the driver sweeps the context's freed buffers).
+func (w *world) copyOut(ctx, b int) bool {
+	proc := w.sc.Ctxs[ctx]
+	bf := &w.bufs[b-1]
+	dst := make([]byte, 4)
+	ok := w.call(proc, ab.Rec{"op": "CopyOut", "pid": proc, "ctx": ctx, "b": b}, false, func() {
+		q := w.d.CreateCommandQueue(w.ctxs[ctx])
+		w.d.EnqueueMemCopyD2H(q, dst, driver.Ptr(bf.ptr))
+		w.pump(q)
+	})
+	if !ok {
+		return false
+	}
+	w.emit("CopyOut", ab.Rec{"pid": proc, "ctx": ctx, "b": b, "pt": w.dump()})
+	return true
+}
+
 // probe allocates single pages on an actual device until the allocator reports out of memory.
 // Returns the buffers obtained.
 func (w *world) probe(ctx, dev int, freeAfter bool) {
@@ -353,6 +473,10 @@ func (w *world) do(op Op) {
 		w.migrate(op.B, op.Off, op.Dev)
 	case "Probe":
 		w.probe(op.Ctx, op.Dev, true)
+	case "Launch":
+		w.launch(op.Ctx, op.Dev)
+	case "CopyOut":
+		w.copyOut(op.Ctx, op.B)
 	default:
 		panic("unknown op " + op.A)
 	}
@@ -366,7 +490,9 @@ func (w *world) valid(op Op) bool {
 	}
 	proc := w.sc.Ctxs[op.Ctx]
 	bufOK := func() bool {
-		return op.B >= 1 && op.B <= len(w.bufs) && w.bufs[op.B-1].live && w.sc.Ctxs[w.bufs[op.B-1].ctx] == proc
+		// buffers the driver allocated for itself (kernel launch) are not the application's to name
+		return op.B >= 1 && op.B <= len(w.bufs) && w.bufs[op.B-1].live && !w.bufs[op.B-1].internal &&
+			w.sc.Ctxs[w.bufs[op.B-1].ctx] == proc
 	}
 	mapped := func(off, n int) bool {
 		bf := w.bufs[op.B-1]
@@ -380,9 +506,19 @@ func (w *world) valid(op Op) bool {
 		}
 		return true
 	}
+	if buddyMode {
+		// Remap/Distribute obtain one buddy block per call: with more than one page per block, internal and
+		// external fragmentation decide whether a call within capacity succeeds; that is outside the property.
+		if op.A == "Remap" && op.N != 1 {
+			return false
+		}
+		if op.A == "Dist" && op.B >= 1 && op.B <= len(w.bufs) && len(op.Gpus) > 1 && w.bufs[op.B-1].pages > len(op.Gpus) {
+			return false
+		}
+	}
 	switch op.A {
 	case "Alloc":
-		return op.Dev >= 0 && op.Dev < len(w.devs) && op.N >= 1 && w.withinCap(w.targets(op.Dev), op.N)
+		return op.Dev >= 0 && op.Dev < len(w.devs) && op.N >= 1 && w.fitsPool(w.targets(op.Dev), op.N)
 	case "AllocU":
 		return op.N >= 1 && w.withinCap([]int{1}, op.N)
 	case "Free":
@@ -402,7 +538,7 @@ func (w *world) valid(op Op) bool {
 		}
 		return len(op.Gpus) == 1 || w.withinCap(op.Gpus, w.bufs[op.B-1].pages)
 	case "Mig":
-		if op.B < 1 || op.B > len(w.bufs) || !w.bufs[op.B-1].live {
+		if op.B < 1 || op.B > len(w.bufs) || !w.bufs[op.B-1].live || w.bufs[op.B-1].internal {
 			return false
 		}
 		bf := w.bufs[op.B-1]
@@ -417,6 +553,16 @@ func (w *world) valid(op Op) bool {
 		return host >= 1 && host != op.Dev && w.withinCap([]int{op.Dev}, 1)
 	case "Probe":
 		return op.Dev >= 1 && op.Dev < len(w.devs) && w.devs[op.Dev].Type == "gpu"
+	case "Launch":
+		// code object + kernel arguments + packet: one page each at every supported page size; ask for one more
+		return op.Dev >= 1 && op.Dev < len(w.devs) && w.devs[op.Dev].Type == "gpu" && w.withinCap([]int{op.Dev}, 4)
+	case "CopyOut":
+		// the first page of the buffer must be mapped and lie in a GPU (the copy is sent to that GPU)
+		if !bufOK() {
+			return false
+		}
+		pg, ok := w.find(proc, w.bufs[op.B-1].ptr)
+		return ok && w.devOfPage(pg.PAddr/w.psz) >= 1
 	}
 	return false
 }
@@ -454,12 +600,21 @@ func (w *world) finish() {
 
 // ------------------------------------------------------------- generator
 
+const nProfiles = 6
+
 func randomScenario(rng *rand.Rand, i int) *Scenario {
-	profile := i % 5
+	profile := i % nProfiles
 	sc := &Scenario{PS: uint(12 + rng.Intn(5)), Drain: true, Tag: fmt.Sprintf("random/%d/profile%d", i, profile)}
 	ng := 1 + rng.Intn(4)
 	for g := 0; g < ng; g++ {
 		sc.Gpus = append(sc.Gpus, 2+rng.Intn(7))
+	}
+	if buddyMode {
+		// the buddy allocator is written for 4 KiB pages and halves blocks: power-of-two memories only
+		sc.PS = 12
+		for g := range sc.Gpus {
+			sc.Gpus[g] = []int{2, 4, 8}[rng.Intn(3)]
+		}
 	}
 	if ng >= 2 && rng.Intn(3) > 0 {
 		all := []int{}
@@ -474,7 +629,7 @@ func randomScenario(rng *rand.Rand, i int) *Scenario {
 	switch profile {
 	case 0, 3:
 		sc.Ctxs = []int{1}
-	case 1:
+	case 1, 5:
 		sc.Ctxs = []int{1, 1}
 	case 2:
 		sc.Ctxs = []int{1, 2, 3}[:2+rng.Intn(2)]
@@ -487,13 +642,13 @@ func randomScenario(rng *rand.Rand, i int) *Scenario {
 func (w *world) randomOp(rng *rand.Rand, profile int) Op {
 	ctx := rng.Intn(len(w.ctxs))
 	maxN := 4
-	if profile == 0 || profile == 2 {
+	if profile == 0 || profile == 2 || profile == 5 {
 		maxN = 1
 	}
 	pickBuf := func() int {
 		live := []int{}
 		for i, b := range w.bufs {
-			if b.live && w.sc.Ctxs[b.ctx] == w.sc.Ctxs[ctx] {
+			if b.live && !b.internal && w.sc.Ctxs[b.ctx] == w.sc.Ctxs[ctx] {
 				live = append(live, i+1)
 			}
 		}
@@ -509,7 +664,22 @@ func (w *world) randomOp(rng *rand.Rand, profile int) Op {
 		}
 	}
 	r := rng.Intn(100)
-	moves := profile >= 3
+	moves := profile == 3 || profile == 4
+	if profile == 5 || (profile == 4 && rng.Intn(8) == 0) {
+		// kernel launches and device-to-host copies: the context's buffer list is swept
+		switch {
+		case r < 32:
+			return Op{A: "Alloc", Ctx: ctx, Dev: gpus[rng.Intn(len(gpus))], N: 1, Rem: rng.Intn(3)}
+		case r < 60:
+			return Op{A: "Free", Ctx: ctx, B: pickBuf()}
+		case r < 70:
+			return Op{A: "Launch", Ctx: ctx, Dev: gpus[rng.Intn(len(gpus))]}
+		case r < 95:
+			return Op{A: "CopyOut", Ctx: ctx, B: pickBuf()}
+		default:
+			return Op{A: "Probe", Ctx: ctx, Dev: gpus[rng.Intn(len(gpus))]}
+		}
+	}
 	switch {
 	case r < 34:
 		dev := rng.Intn(len(w.devs))
@@ -555,7 +725,7 @@ func (w *world) randomOp(rng *rand.Rand, profile int) Op {
 func runRandom(rec *ab.Recorder, rng *rand.Rand, i, nops int, stats map[string]int) *Scenario {
 	sc := randomScenario(rng, i)
 	w := newWorld(rec, sc, stats)
-	profile := i % 5
+	profile := i % nProfiles
 	for k := 0; k < nops && !w.dead; k++ {
 		var op Op
 		okOp := false
